@@ -668,14 +668,11 @@ Section Events.
     destruct (is_noreply (mtype (snd r)) || negb (c_replay c (decode_row c r))) eqn:E; [apply IH; auto|].
     apply orb_false_iff in E. destruct E as [E _].
     cbv zeta. allev_step; [destruct (_ <? _); [apply Hg|allev_tac]|].
-    apply allev_bind_lift. intros m1 Hm1.
     allev_step; [allev_tac|].
-    apply allev_bind_lift. intros m2 Hm2.
     apply allev_bind_lift. intros m3 Hm3.
     allev_step; [|apply IH; auto].
     apply send_msg_allev; auto. intros tags. apply H3.
-    apply del_tags_mtype in Hm3. apply set_tag_mtype in Hm2, Hm1.
-    rewrite Hm3, Hm2, Hm1. exact E.
+    apply del_tags_mtype in Hm3. rewrite Hm3. exact E.
   Qed.
 
   Lemma process_resend_allev m :
